@@ -7,6 +7,7 @@
 // VF-TECHNIQUE: exhaustive enumeration of tree shapes / digraphs / edit histories on the real code against a reference model
 // VF-BUDGET_QUICK: 240
 #include "vf.hpp"
+#include <set>
 #include "C15_ref.hpp"
 #include <Bpp/Graph/TreeGraphImpl.h>
 #include <Bpp/Graph/DAGraphImpl.h>
@@ -555,7 +556,7 @@ struct TreeSys : vf::SysBase {
       case SETFATHER: return o.a != o.b && has(o.a) && has(o.b) && (dir || (indeg(o.a) == 0 && !arc(o.b, o.a)));
       case ADDSON: return o.a != o.b && has(o.a) && has(o.b) && !arc(o.a, o.b);
       case REMOVESON: return dir && has(o.a) && has(o.b) && arc(o.a, o.b);
-      case DELETE: return has(o.a) && (dir || (indeg(o.a) == 0 && outdeg(o.a) == 0));
+      case DELETE: return has(o.a);   // also on un-rooted (undirected) trees: a legal edit there too
       case ROOTAT: return has(o.a);
       case OUTGROUP: return has(o.a) && T->highestNodeID_ + 2 <= (unsigned)N;
       case UNROOTJOIN: {
@@ -622,6 +623,17 @@ struct TreeSys : vf::SysBase {
     if (o.k == ISVALID && !raised && answer != preValid) c.fail("validity|tree-isValid-stale-cache", ctx() + ": answered " + str(answer));
     if (o.k == ISROOTED && (raised || answer != pre.directed)) c.fail("rootedness|tree-isRooted", ctx() + ": answered " + str(answer));
     if (!consistent()) c.tag("tree-state:edge-table-disagrees-with-node-table");
+    // deleting an existing node is a legal edit in every state: it returns, the node is gone, and the links among the other nodes stay
+    if (o.k == DELETE && pre.has((unsigned)o.a) && preConsistent) {
+      if (raised) c.fail("edit|deleteNode-of-an-existing-node-raised", ctx() + " giving [" + g.str() + "]");
+      else {
+        bool ok = !g.has((unsigned)o.a) && g.nodes.size() + 1 == pre.nodes.size();
+        std::multiset<std::pair<int, int>> want, got;
+        for (auto& e : preEdges) if (e[1] != o.a && e[2] != o.a) want.insert({e[1], e[2]});
+        for (auto& e : edgesOf(*T)) got.insert({e[1], e[2]});
+        if (!ok || want != got) c.fail("edit|deleteNode-result-differs-from-definition", ctx() + " giving [" + g.str() + "]");
+      }
+    }
     if (o.k == ROOTAT && preValid && preConsistent) { judgeReroot(c, *T, preEdges, (unsigned)o.a, raised, !pre.directed, ctx); c.tag(pre.directed ? "history:rootAt-on-valid-rooted-tree" : "history:rootAt-on-valid-unrooted-tree"); }
     if (canon() != before) c.nontrivial();
     static const char* kn[] = {"createNode", "createNodeFromNode", "setFather", "addSon", "removeSon", "deleteNode", "rootAt", "setOutGroup", "unRoot", "unRoot", "isValid", "isRooted"};
